@@ -41,7 +41,8 @@ static void aead_items(void)
                 switch (entry) {
                 case 0: api_aead_enc[alg](c, &cl, MSG, l, ADB, a, N, K); r = api_aead_dec[alg](p, &ml, c, cl, ADB, a, N, K); break;
                 case 1: { api_inc_state st; api_inc_init[alg](&st, N, K); api_inc_start[alg](&st, ADB, a); api_inc_enc[alg](&st, MSG, c, l / 2); api_inc_enc[alg](&st, MSG + l / 2, c + l / 2, l - l / 2); api_inc_encfin[alg](&st, c + l);
-                          api_inc_reinit[alg](&st, N, K); api_inc_start[alg](&st, ADB, a); api_inc_dec[alg](&st, c, p, l); r = api_inc_decfin[alg](&st, c + l); api_inc_free[alg](&st); cl = l + 16; ml = l; break; }
+                          api_inc_reinit[alg](&st, N, K); api_inc_start[alg](&st, ADB, a); { int k1 = l > 3 ? 3 : l, k2 = l > 14 ? 14 : l; api_inc_dec[alg](&st, c, p, k1); api_inc_dec[alg](&st, c + k1, p + k1, k2 - k1); api_inc_dec[alg](&st, c + k2, p + k2, l - k2); }   /* cut at 3 and 14: chunks that start inside a word and run past it */
+                          r = api_inc_decfin[alg](&st, c + l); api_inc_free[alg](&st); cl = l + 16; ml = l; break; }
                 case 2: { api_masked_key mk; api_masked_key_init(alg, &mk, K); api_masked_enc[alg](c, &cl, MSG, l, ADB, a, N, &mk); r = api_masked_dec[alg](p, &ml, c, cl, ADB, a, N, &mk); api_masked_key_free(alg, &mk); break; }
                 case 3: cl = (size_t)cpp_encrypt(0, alg, K, N, c, MSG, l, ADB, a); r = cpp_decrypt(0, alg, K, N, p, c, cl, ADB, a); ml = r >= 0 ? (size_t)r : 0; if (r > 0) r = 0; break;
                 }
